@@ -113,10 +113,19 @@ class NWorld:
         return NotImplemented
 
 
-def run_rule(res, facts, tier):
-    r = res.rule('C02-R20', 'the namespace axis: XPath::findNamespace interpreted on chains of three elements with every combination of no / a first / a second / an empty default '
-                 'declaration and no / two declarations of a prefix: the nodes collected are exactly the namespaces in scope - one per prefix from its nearest declaration, and '
-                 'none for a default namespace that xmlns="" has taken away, whatever is declared further up (XPath 1.0 5.4)', floor=500)
+def run_c12_rule(res, facts, tier):
+    return run_rule(res, facts, tier, rid='C12-R10')
+
+
+def run_rule(res, facts, tier, rid='C02-R20'):
+    if rid == 'C12-R10':
+        r = res.rule('C12-R10', 'the namespace axis delivers its nodes in document order, as it flags them: XPath::findNamespace interpreted on the 576 chains of C02-R20; the list that is '
+                     'marked setDocumentOrder() is ordered by (element from the outermost in, position of the declaration among the attributes of its element) - the order every '
+                     'index-based comparison (unions, sorted inserts) assumes', floor=500)
+    else:
+      r = res.rule('C02-R20', 'the namespace axis: XPath::findNamespace interpreted on chains of three elements with every combination of no / a first / a second / an empty default '
+                   'declaration and no / two declarations of a prefix: the nodes collected are exactly the namespaces in scope - one per prefix from its nearest declaration, and '
+                   'none for a default namespace that xmlns="" has taken away, whatever is declared further up (XPath 1.0 5.4)', floor=500)
     cands = [a for a in facts.asts('XPath::findNamespace', must=False) if a.get('body') is not None]
     if len(cands) != 1:
         raise AnalysisBroken('XPath::findNamespace: %d bodies' % len(cands))
@@ -161,6 +170,19 @@ def run_rule(res, facts, tier):
         except Unsupported as u:
             raise AnalysisBroken('XPath::findNamespace outside the interpreted subset (%s): %s' % (site, u))
         got = [(x.name, x.value) for x in out.items]
+        if rid == 'C12-R10':
+            keys = [(chain.index(x.parent), x.parent.attrs.index(x)) for x in out.items if x.parent in chain]
+            if keys == sorted(keys) and len(keys) == len(out.items):
+                r.ok(site, 'in document order')
+            else:
+                reported += 1
+                if reported <= 3:
+                    r.violation('namespace axis: the list flagged as document order is not in document order',
+                                '%s delivers %s; by element and attribute position: %s' % (site, [x.name for x in out.items], [x.name for _, x in sorted(zip(keys, out.items), key=lambda t: t[0])]),
+                                common.file_line(fn))
+                else:
+                    r.instances += 1
+            continue
         if sorted(got) == sorted(want.items()) and len(got) == len(set(got)):
             r.ok(site, str(sorted(want)))
         else:
